@@ -354,12 +354,27 @@ class Program:
                 parsed.append((rel, text, ast.parse(text, filename=rel)))
             except SyntaxError as exc:
                 raise AnalysisError(f"cannot parse {rel}: {exc}") from exc
-        records = named_tuple_classes([tree for _rel, _text, tree in parsed])
-        for rel, text, tree in parsed:
-            tree = normalise(tree, records)
+        from sa.normal import fold_constants, module_constants
+
+        def module_name(rel: str) -> str:
             name = rel[:-3].replace("/", ".")
-            if name.endswith(".__init__"):
-                name = name[: -len(".__init__")]
+            return name[: -len(".__init__")] if name.endswith(".__init__") else name
+
+        records = named_tuple_classes([tree for _rel, _text, tree in parsed])
+        constants = {module_name(rel): module_constants(tree) for rel, _text, tree in parsed}
+        constants = {name: found for name, found in constants.items() if found}
+        from sa.normal import attribute_stores, class_constants, fold_class_constants
+
+        classes = {module_name(rel): class_constants(tree) for rel, _text, tree in parsed}
+        classes = {name: found for name, found in classes.items() if found}
+        stored: Set[str] = set()
+        for _rel, _text, tree in parsed:
+            stored |= attribute_stores(tree)
+        for rel, text, tree in parsed:
+            name = module_name(rel)
+            tree = fold_constants(tree, name, constants)
+            tree = fold_class_constants(tree, name, classes, stored)
+            tree = normalise(tree, records)
             module = Module(name=name, rel=rel, tree=tree, text=text)
             self.modules[name] = module
             self.by_rel[rel] = module
